@@ -272,6 +272,25 @@ def o_partial(ad, a, b, c):
     return [("raw", ad, ["30", "3014", "301400", "30140003", "3014000361", "32c801", "9003"][a % 7])]
 
 
+def o_inpub_huge(ad, a, b, c):
+    """an inbound PUBLISH with a 4-byte remaining length (needs cfg big=True, otherwise 17 bytes)"""
+    return [("rx", ad, "PUBLISH", a % 3, (7 << 4) | (b & 0x0f), c % 3)]
+
+
+def o_inpub_q2_burst(ad, a, b, c):
+    """more QoS 2 exchanges open at once than any window size: 17..24 PUBLISHes on distinct ids, then their PUBRELs"""
+    n = 17 + a % 8
+    base = 1100 + (b % 5) * 40
+    ops = [("rx", ad, "PUBLISH", 2, c & 0x0f, base + j) for j in range(n)]
+    ops += [("rx", ad, "PUBREL", 0, 0, 0) for j in range(n if c & 0x10 else n // 2)]
+    return ops
+
+
+def o_subscribe_many(ad, a, b, c):
+    """one subscribe() with 126..260 topics: its SUBACK needs a two-byte remaining length"""
+    return [("subscribe", ad, 2, 126 + (a * 3 + b) % 135, c)]
+
+
 class Table(object):
     """cumulative weight table over 256 slots"""
 
